@@ -23,6 +23,7 @@ Anything outside the subset raises Unsupported (→ "no longer translated": an u
 import ast
 from fractions import Fraction
 
+import argwrites
 import py2lean
 from py2lean import Unsupported, Fn, parse_type as _parse_type, lean_name
 
@@ -2136,6 +2137,12 @@ def translate_module(repo, relfile, ns, cls, funcs):
         key = sig.get('lean_name') or name
         if name not in nodes:
             problems.append('%s: function %s not found in %s' % (ns, name, relfile))
+            continue
+        aw = argwrites.arg_writes(nodes[name])
+        if aw:
+            # the translation treats arrays as immutable values: a function that writes through a parameter is not translated faithfully
+            problems.append('%s: writes through its argument (%s) — not a pure function of its arguments' % (
+                name, '; '.join('line %d: `%s`: %s' % x for x in aw[:3])))
             continue
         try:
             f = NpFn(nodes[name], sig, fns, relfile, ns, cls)
